@@ -471,8 +471,9 @@ impl MapLife {
                         (Err(_), Some(_)) => { slots.push(None); stats.probe("map creation failed loudly"); },
                         (Err(e), None) => return Err(v("map-error", "MemoryMap::new", format!("{}: mapping a healthy file ({:?}) failed: {}", step, self.files[*file], e))),
                         (Ok(m), None) => {
-                            if m.mode() != mode { return Err(v("mode", "MemoryMap::mode", step.clone())); }
-                            if m.filename() != map_paths[*file].as_path() { return Err(v("filename", "MemoryMap::filename", step.clone())); }
+                            // Accessors the statement does not mention are counted, not judged (a path may legitimately be normalised).
+                            stats.probe_if(m.mode() != mode, "mode() differs from the requested mode (not judged)");
+                            stats.probe_if(m.filename() != map_paths[*file].as_path(), "filename() differs from the given path (not judged)");
                             let l = Live { map: m, file: *file, mutable: *mutable };
                             check_content(&l, &model, &step)?;
                             slots.push(Some(l));
